@@ -264,6 +264,11 @@ def _receiver(ctx, cname, mname, deliver, nak_srv):
         acks = [n for n in calls if norm(n.func) == "SegmentAckPDU"]
         if not has_app:
             ctx.check("%s.%s:no-delivery-without-append" % (cname, mname), not delivered, where(c.module, f), "assembled PDU delivered on a path that rejected the segment")
+            # a rejected segment must leave the receive state alone (what was appended stays appended: rolling the
+            # expected number back makes the retransmitted window append its first segments a second time)
+            touched = [norm(n.targets[0]) for n in nodes if isinstance(n, ast.Assign) and norm(n.targets[0]) in (key_l, "self.segmentAPDU", "self.initialSequenceNumber")]
+            ctx.check("%s.%s:reject-keeps-receive-state" % (cname, mname), not touched, where(c.module, f),
+                      "a path that does not append the segment modifies %s" % touched)
             # out-of-order path: negative ack
             if feasible(p, ev, {key_s: 5, key_l: 1, "%s.apduSeg" % apdu: True}) and not feasible(p, ev, {key_s: 2, key_l: 1, "%s.apduSeg" % apdu: True}) \
                     and any(isinstance(nd, ast.Compare) for nd, _ in p.conds()):
@@ -401,6 +406,39 @@ def r5(ctx):
                 if ok:
                     ok, cx = same_function(evc, st[0].value, grid(**{"%s.apduSeq" % apdu: [0, 1, 254, 255]}), lambda e: (e["%s.apduSeq" % apdu] + 1) % 256)
                 ctx.check("%s.%s:next-burst-start" % (cname, mname), ok, where(cc.module, call), "the next burst must start at (acknowledged sequence number + 1) mod 256")
+
+
+@rule("C05.R8", "a (re)started segmented request begins from a clean send state", floor=3, engines="E1 paths")
+def r8(ctx):
+    prog = ctx.prog
+    sv = states(ctx)
+    c, f = _fn(ctx, "ClientSSM", "indication")
+    want = {"self.sentAllSegments": False, "self.segmentRetryCount": 0, "self.initialSequenceNumber": 0}
+    n = 0
+    for p in enumerate_paths(f):
+        if p.term == "raise":
+            continue
+        nodes = path_nodes(p)
+        ent = [i for i, x in enumerate(nodes) if isinstance(x, ast.Call) and self_call(x) == "set_state" and x.args and prog.try_const(c.module, x.args[0], default=-1) == sv["SEGMENTED_REQUEST"]]
+        if not ent:
+            continue
+        n += 1
+        for k, v in want.items():
+            st = [x for x in nodes[:ent[0]] if isinstance(x, ast.Assign) and norm(x.targets[0]) == k]
+            ok = bool(st) and prog.try_const(c.module, st[-1].value, default="?") is v or (bool(st) and prog.try_const(c.module, st[-1].value, default="?") == v and not isinstance(v, bool))
+            ctx.check("ClientSSM.indication:restart-resets[%s]" % k.split(".")[1], ok, where(c.module, f),
+                      "indication() is re-entered for every retry of the whole request: %s must be reset to %r before SEGMENTED_REQUEST is entered (a stale value from the previous attempt makes the first segment-ack look like the last)" % (k, v))
+    if n == 0:
+        raise ShapeError("ClientSSM.indication never enters SEGMENTED_REQUEST")
+    # the unsegmented branch marks everything as sent
+    for p in enumerate_paths(f):
+        if p.term == "raise":
+            continue
+        nodes = path_nodes(p)
+        ent = [i for i, x in enumerate(nodes) if isinstance(x, ast.Call) and self_call(x) == "set_state" and x.args and prog.try_const(c.module, x.args[0], default=-1) == sv["AWAIT_CONFIRMATION"]]
+        if ent:
+            st = [x for x in nodes[:ent[0]] if isinstance(x, ast.Assign) and norm(x.targets[0]) == "self.sentAllSegments"]
+            ctx.check("ClientSSM.indication:unsegmented-sent-all", bool(st) and prog.try_const(c.module, st[-1].value) is True, where(c.module, f), "an unsegmented request has sent all its segments")
 
 
 @rule("C05.R6", "a retransmission handler may not use the window size while it can still be the None stored at state entry", floor=2, engines="E1 field typestate")
